@@ -89,6 +89,15 @@ fn observe(acc: &mut Acc, t: TimeDelta, ns: i128, how: &dyn Fn() -> String) {
     acc_eq!("Display", parse_display(&t.to_string()), Some(ns));
     acc_eq!("to_std", t.to_std().ok().map(|d| d.as_nanos() as i128), if ns >= 0 { Some(ns) } else { None });
     acc_eq!("in-range", t >= TimeDelta::MIN && t <= TimeDelta::MAX, true);
+    {
+        // floating-point views: two roundings at most away from the exact quotient
+        let want = ns as f64 / 1e9;
+        let tol = (want.abs() + 1.0) * 2f64.powi(-51); // the value is floor-seconds + fraction: errors scale with |seconds| + 1
+        acc_eq!("as_seconds_f64", (t.as_seconds_f64() - want).abs() <= tol, true);
+        let want32 = want as f32;
+        let tol32 = (want32.abs() + 1.0) * 2f32.powi(-22);
+        acc_eq!("as_seconds_f32", (t.as_seconds_f32() - want32).abs() <= tol32, true);
+    }
     if ns < 0 && ns % NS != 0 {
         acc.hit_nt(NEGSUB);
     }
@@ -287,6 +296,21 @@ fn binary_ops(acc: &mut Acc, a: i128, bs: &[i128], ks: &[i32], out: &mut BTreeSe
             (Ok(t), true) if delta_ns(t) == d => {}
             (Err(_), false) => acc.hit(OP_PANIC),
             (r, _) => acc.violation("TimeDelta::sub-operator", format!("TimeDelta({} ns) - TimeDelta({} ns)", a, b), if in_range(d) { format!("{} ns", d) } else { "panic (documented)".into() }, format!("{:?}", r)),
+        }
+        // assign forms
+        let r = guard(|| {
+            let mut x = ta;
+            x += tb;
+            x
+        });
+        let r2 = guard(|| {
+            let mut x = ta;
+            x -= tb;
+            x
+        });
+        acc.transitions += 2;
+        if r.as_ref().ok().map(|t| delta_ns(*t)) != (if in_range(s) { Some(s) } else { None }) || r2.as_ref().ok().map(|t| delta_ns(*t)) != (if in_range(d) { Some(d) } else { None }) {
+            acc.violation("TimeDelta::assign-operators", format!("x = TimeDelta({} ns); x += / -= TimeDelta({} ns)", a, b), format!("{} / {} ns (panic when out of range)", s, d), format!("{:?} / {:?}", r, r2));
         }
         if in_range(s) {
             acc.transitions += 2;
